@@ -159,6 +159,9 @@ def monitor_mgr(script):
         if "panic" in words:
             hit("panic", f"`{brv.op_part(line)}` panicked the block manager")
             return hits
+        if int(o.get("stale", 0)) > 0:
+            hit("stale-download", f"{o.get('stale')} downloader(s) of a request that already received its terminal signal are still registered "
+                                  f"at rest after `{brv.op_part(line)}`: they were never cancelled (their Run waits for its timers), the registry does not return to empty")
         if "unsettled=1" in words:
             hit("unsettled", f"the manager never came to rest after `{brv.op_part(line)}` (a request without terminal signal, "
                              "a downloader that never left the registry, or Run not ending after the interrupt)")
